@@ -38,6 +38,7 @@ CondOp(k) ==
       [] k = "int_log_cond" -> AIntLogCond(1, 2)
       [] k = "int_log_cond_y" -> AIntLogCondY(1, 2, 0, "callable")
       [] k = "int_log_cond_y2" -> AIntLogCondY(1, 2, 0, "y")
+      [] k = "defer" -> AIntLogCondYDefer(1, 2)
 CondNext ==
     \/ n = 0 /\ \E dd \in Dims, k \in CondKinds, bm \in {"given"}, s \in Offs :
                    ANewCond(k, "S", IF IsIdCond(k) THEN "none" ELSE bm, dd \div 10, dd % 10, 1, s, s)
@@ -46,7 +47,9 @@ CondNext ==
     \/ n = 3 /\ \E k \in Ops : CondOp(k)
     \/ n = 4 /\ (\/ \E k \in {1, 2} : AUpdate(2, <<k>>, 3)
                  \/ AUpdateSigma(1, 2))
-    \/ n = 5 /\ CondOp(IF hist[4].act = "IntLogCondY" /\ hist[4].a.via = "y" THEN "int_log_cond_y2"
+    \/ n = 5 /\ hist[4].act = "IntLogCondYDefer" /\ AApplyClosure(4, 0)     \* the function requested BEFORE the mutation
+    \/ n = 5 /\ hist[4].act # "IntLogCondYDefer" /\
+                CondOp(IF hist[4].act = "IntLogCondY" /\ hist[4].a.via = "y" THEN "int_log_cond_y2"
                         ELSE IF hist[4].act = "IntLogCondY" THEN "int_log_cond_y"
                         ELSE IF hist[4].act = "IntLogCond" THEN "int_log_cond"
                         ELSE hist[4].a.kind)
